@@ -5,8 +5,20 @@ import PenneModel.Types.Agree
 namespace Types
 namespace Ty
 
-theorem isLike_refl : ∀ t : Ty, isLike t t = true := by
-  intro t; cases t <;> simp [isLike]
+theorem isLike_refl : ∀ t : Ty, isLike t t = true
+  | .pointer t => by simp [isLike, isLike_refl t]
+  | .view t => by simp [isLike, isLike_refl t]
+  | .void => by simp [isLike]
+  | .prim _ => by simp [isLike]
+  | .array _ _ => by simp [isLike]
+  | .arrayNamed _ _ => by simp [isLike]
+  | .slice _ => by simp [isLike]
+  | .slicePtr _ => by simp [isLike]
+  | .endless _ => by simp [isLike]
+  | .arraylike _ => by simp [isLike]
+  | .struct _ => by simp [isLike]
+  | .word _ _ => by simp [isLike]
+  | .unresolved _ => by simp [isLike]
 
 theorem conc_refl : ∀ t : Ty, conc t t = true
   | .void => by simp [conc]
@@ -24,8 +36,32 @@ theorem conc_refl : ∀ t : Ty, conc t t = true
   | .view t => by simp [conc, conc_refl t]
 
 /-- against a fully known type, "is like" is identity -/
-theorem isLike_concrete (a b : Ty) (hb : Concrete b = true) (h : isLike a b = true) : a = b := by
-  cases a <;> cases b <;> simp_all [isLike, Concrete]
+theorem isLike_concrete : ∀ (a b : Ty), Concrete b = true → isLike a b = true → a = b
+  | .pointer t, b, hb, h => by
+    cases b with
+    | pointer t' =>
+      simp only [isLike] at h
+      simp only [Concrete] at hb
+      rw [isLike_concrete t t' hb h]
+    | _ => simp_all [isLike, Concrete]
+  | .view t, b, hb, h => by
+    cases b with
+    | view t' =>
+      simp only [isLike] at h
+      simp only [Concrete] at hb
+      rw [isLike_concrete t t' hb h]
+    | _ => simp_all [isLike, Concrete]
+  | .void, b, hb, h => by cases b <;> simp_all [isLike, Concrete]
+  | .prim _, b, hb, h => by cases b <;> simp_all [isLike, Concrete]
+  | .array _ _, b, hb, h => by cases b <;> simp_all [isLike, Concrete]
+  | .arrayNamed _ _, b, hb, h => by cases b <;> simp_all [isLike, Concrete]
+  | .slice _, b, hb, h => by cases b <;> simp_all [isLike, Concrete]
+  | .slicePtr _, b, hb, h => by cases b <;> simp_all [isLike, Concrete]
+  | .endless _, b, hb, h => by cases b <;> simp_all [isLike, Concrete]
+  | .arraylike _, b, hb, h => by cases b <;> simp_all [isLike, Concrete]
+  | .struct _, b, hb, h => by cases b <;> simp_all [isLike, Concrete]
+  | .word _ _, b, hb, h => by cases b <;> simp_all [isLike, Concrete]
+  | .unresolved _, b, hb, h => by cases b <;> simp_all [isLike, Concrete]
 
 /-- against a fully known type, "can be declared as" is identity -/
 theorem declaredAs_concrete (a b : Ty) (hb : Concrete b = true) (h : canBeDeclaredAs a b = true) : a = b := by
